@@ -4,6 +4,11 @@
    over every token sequence up to N of three alphabets (expressions,
    statements, methods); typing/immutability laws and the fixed facts of the
    reference (floor division, escapes, short circuit ...) hold.
+   MesonSubst_MC: f-string / .format() substitution is one pass over the
+   literal, substituted text is never scanned again (every template up to N
+   over `@ a b 0 1`, values that look like placeholders).  MesonMethods_MC:
+   laws of flatten / slice / values / splitlines.  The bounded spaces of both
+   are replayed through the real interpreter as well (A).
 2. (A) every token sequence of those bounded spaces is rendered to text and
    run by the real ``mparser.Parser`` + ``Interpreter`` (in-process, one
    long-lived interpreter per worker, fresh variable table per program); the
@@ -41,6 +46,28 @@ INVARIANT PredefinedUntouched
 INVARIANT ComparisonIsBool
 CHECK_DEADLOCK FALSE
 POSTCONDITION EmitAlphabet
+'''
+
+SUBST_CFG = '''SPECIFICATION Spec
+CONSTANTS MaxLen = %d
+INVARIANT OnePassF
+INVARIANT OnePassN
+INVARIANT NeverRescannedF
+INVARIANT NeverRescannedN
+INVARIANT PiecesLossless
+INVARIANT PlainTextUntouched
+CHECK_DEADLOCK FALSE
+POSTCONDITION Emit
+'''
+
+METHODS_CFG = '''SPECIFICATION Spec
+CONSTANTS MaxLen = %d
+INVARIANT FlattenLaws
+INVARIANT SliceLaws
+INVARIANT ValuesLaws
+INVARIANT SplitLinesLaws
+CHECK_DEADLOCK FALSE
+POSTCONDITION Emit
 '''
 
 # ---------------------------------------------------------------------------
@@ -234,13 +261,136 @@ def _worker_enum(args: T.Tuple[str, T.List[T.Dict[str, T.Any]], T.List[T.Any], i
     return out
 
 
-def _worker_gen(args: T.Tuple[int, int, int]) -> T.Dict[str, T.Any]:
-    lo, hi, sd = args
+def subst_templates(space: T.Dict[str, T.Any]) -> T.List[T.List[int]]:
+    """The template space of MesonSubst_MC: every code point sequence up to maxlen over its character set.  Templates
+    with fewer than two delimiters hold no placeholder of either syntax: one in sixteen of them is kept."""
+    chars = space['chars']
+    out: T.List[T.List[int]] = []
+    level: T.List[T.List[int]] = [[]]
+    for _ in range(space['maxlen'] + 1):
+        out += level
+        level = [t + [c] for t in level for c in chars]
+    return [t for i, t in enumerate(out) if t.count(64) >= 2 or i % 16 == 0]
+
+
+def _worker_subst(args: T.Tuple[T.Dict[str, T.Any], T.List[T.List[int]], int, int, int]) -> T.Dict[str, T.Any]:
+    """(A) for the substitution laws: each template of the model as an f-string over the two names and as a
+    .format() over two arguments, under the mutually referring values and seeded other pairs of the model's pool."""
+    space, templates, base, sd, k = args
+    S, ident, string = lang_gen.S, lang_gen.ident, lang_gen.string
+    pool = [''.join(chr(c) for c in v) for v in space['pool']]
+    na, nb = [''.join(chr(c) for c in n) for n in space['names']]
+    alpha = ld.Alphabet()
+    cases = []
+    for off, tpl in enumerate(templates):
+        code = base + off
+        body = ''.join(chr(c) for c in tpl)
+        rnd = random.Random(hash((sd, 'subst', code)) & 0xffffffff)
+        for kind, must in (('f', space['mutual_f']), ('n', space['mutual_n'])):
+            pairs = [(pool[must[0] - 1], pool[must[1] - 1])] + [(rnd.choice(pool), rnd.choice(pool)) for _ in range(k - 1)]
+            toks: T.List[T.Dict[str, T.Any]] = []
+            for bi, (va, vb) in enumerate(pairs):
+                toks += [ident(na), S('assign'), string(va), S('eol'), ident(nb), S('assign'), string(vb), S('eol'), ident(f'r{bi}'), S('assign')]
+                if kind == 'f':
+                    toks += [string(body, 'mfs' if bi == 1 else 'fs')]
+                else:
+                    fargs = [ident(na), S('comma'), ident(nb)] if bi != 1 else [string(va), S('comma'), string(vb, 'ms')]
+                    toks += [string(body, 'ms' if bi == 2 else 's'), S('dot'), ident('format'), S('lparen')] + fargs + [S('rparen')]
+                toks.append(S('eol'))
+            text, _spans = ld.render(toks, rnd, trivia=(code % 4 == 0))
+            obs = run_program(text, {})
+            obs.update({'id': f'subst:{kind}:{code}', 't': [alpha.add(t) for t in toks], 'text': text})
+            cases.append(obs)
+    return {'alphabet': alpha.items, 'cases': cases}
+
+
+def val_tokens(v: T.Dict[str, T.Any]) -> T.List[T.Dict[str, T.Any]]:
+    """a value of the model (int / str / arr) written as a literal"""
+    if v['k'] == 'int':
+        return [lang_gen.num(v['n'])]
+    if v['k'] == 'str':
+        return [lang_gen.string(''.join(chr(c) for c in v['s']))]
+    if v['k'] == 'arr':
+        out = [lang_gen.S('lbracket')]
+        for i, e in enumerate(v['e']):
+            if i:
+                out.append(lang_gen.S('comma'))
+            out += val_tokens(e)
+        return out + [lang_gen.S('rbracket')]
+    raise MachineryError('cannot write a literal for ' + v['k'])
+
+
+def _worker_methods(args: T.Tuple[T.Dict[str, T.Any], int, int, int]) -> T.Dict[str, T.Any]:
+    """(A) for MesonMethods_MC: every word of the model as an array, a dictionary and a text; flatten / slice (seeded
+    bounds and steps inside and outside the array) / values / keys / splitlines are applied to them."""
+    space, lo, hi, sd = args
+    S, ident, num = lang_gen.S, lang_gen.ident, lang_gen.num
+    alpha = ld.Alphabet()
+    cases = []
+
+    def signed(n: int) -> T.List[T.Dict[str, T.Any]]:
+        return [num(n)] if n >= 0 else [S('dash'), num(-n)]
+
+    def assign(toks: T.List[T.Dict[str, T.Any]], name: str, e: T.List[T.Dict[str, T.Any]]) -> None:
+        toks += [ident(name), S('assign')] + e + [S('eol')]
+
+    def call(obj: str, m: str, pos: T.Sequence[int] = (), step: T.Optional[int] = None) -> T.List[T.Dict[str, T.Any]]:
+        out = [ident(obj), S('dot'), ident(m), S('lparen')]
+        parts = [signed(p) for p in pos] + ([[ident('step'), S('colon')] + signed(step)] if step is not None else [])
+        for i, part in enumerate(parts):
+            out += ([S('comma')] if i else []) + part
+        return out + [S('rparen')]
+    for code in range(lo, hi):
+        # code -> word over 1..5 (all lengths up to maxlen, shortest first)
+        n, c = 0, code
+        while c >= 5 ** n:
+            c -= 5 ** n
+            n += 1
+        word = [(c // 5 ** i) % 5 for i in range(n)]
+        rnd = random.Random(hash((sd, 'methods', code)) & 0xffffffff)
+        toks: T.List[T.Dict[str, T.Any]] = []
+        arr = [S('lbracket')]
+        dct = [S('lcurl')]
+        for i, k in enumerate(word):
+            sep = [S('comma')] if i else []
+            arr += sep + val_tokens(space['elems'][k])
+            dct += sep + [lang_gen.string(''.join(chr(ch) for ch in space['keys'][i])), S('colon')] + val_tokens(space['elems'][k])
+        assign(toks, 'x', arr + [S('rbracket')])
+        assign(toks, 'd', dct + [S('rcurl')])
+        assign(toks, 't', [lang_gen.string(''.join(''.join(chr(ch) for ch in space['linesource'][k]) for k in word))])
+        assign(toks, 'f', call('x', 'flatten'))
+        assign(toks, 'ff', [S('lbracket'), ident('x'), S('comma'), ident('f'), S('rbracket'), S('dot'), ident('flatten'), S('lparen'), S('rparen')])
+        assign(toks, 's0', call('x', 'slice'))
+        assign(toks, 's1', call('x', 'slice', step=rnd.choice([-1, -1, -2, -3, 1, 2, 3])))
+        for j in range(5):
+            a, b = rnd.randint(-n - 2, n + 2), rnd.randint(-n - 2, n + 2)
+            assign(toks, f'c{j}', call('x', 'slice', (a, b), step=rnd.choice([None, None, 1, 2, 3])))
+        assign(toks, 'v', call('d', 'values'))
+        assign(toks, 'k', call('d', 'keys'))
+        assign(toks, 'l', call('t', 'splitlines'))
+        if code % 3 == 0:
+            # a call the reference rejects, last (everything before it must still be in the store)
+            assign(toks, 'bad', rnd.choice([call('x', 'slice', (0,)), call('x', 'slice', step=0), call('x', 'slice', (0, 1, 2)),
+                                            call('x', 'flatten', (1,)), call('d', 'values', (1,)), call('t', 'splitlines', (1,)),
+                                            call('d', 'flatten'), call('x', 'values'), call('x', 'splitlines')]))
+        text, _spans = ld.render(toks, rnd, trivia=(code % 4 == 0))
+        obs = run_program(text, {})
+        obs.update({'id': f'methods:{code}', 't': [alpha.add(t) for t in toks], 'text': text})
+        cases.append(obs)
+    return {'alphabet': alpha.items, 'cases': cases}
+
+
+def _worker_gen(args: T.Tuple[int, int, int, int]) -> T.Dict[str, T.Any]:
+    lo, hi, sd, subst_from = args
     alpha = ld.Alphabet()
     cases = []
     for j in range(lo, hi):
         rnd = random.Random(sd * 1000003 + j)
-        toks = lang_gen.program(rnd)
+        # the programs from subst_from on carry the class "values that look like placeholders" (several identifiers in
+        # one f-string, .format() arguments, values naming each other) and / or the methods flatten, slice, values,
+        # splitlines; the ones before are generated as ever
+        ext = j >= subst_from
+        toks = lang_gen.program(rnd, subst=0.35 if ext and j % 3 != 2 else 0.0, newmeth=0.3 if ext and j % 3 != 1 else 0.0)
         text, _spans = ld.render(toks, rnd, trivia=(j % 2 == 0))
         obs = run_program(text, {})
         obs.update({'id': f'gen:{j}', 't': [alpha.add(t) for t in toks], 'text': text})
@@ -412,20 +562,52 @@ def main(chk: Check) -> None:
     quick = chk.tier == 'quick'
     bounds = {'evalexpr': 3, 'evalstmt': 3, 'evalmethod': 3} if quick else {'evalexpr': 4, 'evalstmt': 4, 'evalmethod': 4}
     ngen = 3000 if quick else 120000
+    nsub = 700 if quick else 20000
+    subst_len, subst_k = (6, 2) if quick else (7, 5)
+    meth_len = 4 if quick else 5
     ncli = 32 if quick else 400
     ntree = 600 if quick else 20000
     chk.rule = ('A: every token sequence up to N over three alphabets exported by the TLC model (expression operators and '
-                'literals; statements and control flow; method calls), evaluated in-process with x predefined; B: seeded '
-                'grammar-generated programs; plus a CLI sample. Non-trivial = program accepted and evaluated without error '
+                'literals; statements and control flow; method calls), evaluated in-process with x predefined; every template '
+                'of the substitution model (f-string and .format() over values that look like placeholders) and every word of '
+                'the methods model (flatten / slice / values / splitlines); B: seeded grammar-generated programs, a part of '
+                'them with placeholder-like values and the newer methods; plus a CLI sample. Non-trivial = program accepted and evaluated without error '
                 'leaving at least one variable (distinct token sequences).')
     alphabets = {}
-    for name, n in bounds.items():
-        res = run_tlc(SPECS / 'lang', 'MesonEval_MC', cfg_text=MC_CFG % (n, name), collect=['alphabet.json'], timeout=3600,
-                      heap='8g', allow_violation=False)
-        chk.add_tlc(f'MesonEval_MC[{name},MaxLen={n}]', res)
-        alphabets[name] = json.loads(res.collected['alphabet.json'])
-    chk.extra['bounds'] = bounds
+    # the five model-checking runs are independent of each other; one at a time (several JVMs side by side were killed
+    # for lack of memory on a loaded box)
+    from concurrent.futures import ThreadPoolExecutor
+    with ThreadPoolExecutor(max_workers=1) as tp:
+        futs = {name: tp.submit(run_tlc, SPECS / 'lang', 'MesonEval_MC', cfg_text=MC_CFG % (n, name), collect=['alphabet.json'],
+                                timeout=3600, heap='8g', allow_violation=False) for name, n in bounds.items()}
+        fsub = tp.submit(run_tlc, SPECS / 'lang', 'MesonSubst_MC', cfg_text=SUBST_CFG % subst_len, collect=['subst.json'],
+                         timeout=3600, allow_violation=False)
+        fmeth = tp.submit(run_tlc, SPECS / 'lang', 'MesonMethods_MC', cfg_text=METHODS_CFG % meth_len, collect=['methods.json'],
+                          timeout=3600, allow_violation=False)
+        for name, n in bounds.items():
+            res = futs[name].result()
+            chk.add_tlc(f'MesonEval_MC[{name},MaxLen={n}]', res)
+            alphabets[name] = json.loads(res.collected['alphabet.json'])
+        res = fsub.result()
+        chk.add_tlc(f'MesonSubst_MC[MaxLen={subst_len}]', res)
+        space = json.loads(res.collected['subst.json'])
+        res = fmeth.result()
+        chk.add_tlc(f'MesonMethods_MC[MaxLen={meth_len}]', res)
+        mspace = json.loads(res.collected['methods.json'])
+    chk.extra['bounds'] = dict(bounds, subst=subst_len, methods=meth_len)
     with ProcessPoolExecutor(max_workers=common.NCPU) as ex:
+        templates = subst_templates(space)
+        step = max(1, len(templates) // (common.NCPU * 3) + 1)
+        salpha, scases = ld.merge_batches(ex.map(_worker_subst, [(space, templates[lo:lo + step], lo, chk.seed, subst_k)
+                                                                 for lo in range(0, len(templates), step)]))
+        account(chk, scases)
+        judge_eval(chk, salpha, [], scases, f'A:subst<={subst_len}')
+        chk.extra['subst_templates'] = len(templates)
+        nwords = sum(5 ** n for n in range(meth_len + 1))
+        step = max(1, nwords // (common.NCPU * 2) + 1)
+        malpha, mcases = ld.merge_batches(ex.map(_worker_methods, [(mspace, lo, min(nwords, lo + step), chk.seed) for lo in range(0, nwords, step)]))
+        account(chk, mcases)
+        judge_eval(chk, malpha, [], mcases, f'A:methods<={meth_len}')
         for name, nmax in bounds.items():
             alphabet = alphabets[name]['alphabet']
             env0 = alphabets[name]['env0']
@@ -442,8 +624,9 @@ def main(chk: Check) -> None:
             for c in cases:
                 c.update({'ext': [], 'lossless': True, 'located': True, 'exc': ''})
             c02_parser.judge(chk, alphabet, [c for c in cases if not c['st'].startswith('internal:')], f'A:{name}:tree', mode='C01')
-        step = max(1, ngen // (common.NCPU * 2))
-        alphabet, cases = ld.merge_batches(ex.map(_worker_gen, [(lo, min(ngen, lo + step), chk.seed) for lo in range(0, ngen, step)]))
+        step = max(1, (ngen + nsub) // (common.NCPU * 2))
+        alphabet, cases = ld.merge_batches(ex.map(_worker_gen, [(lo, min(ngen + nsub, lo + step), chk.seed, ngen)
+                                                                for lo in range(0, ngen + nsub, step)]))
         account(chk, cases)
         judge_eval(chk, alphabet, [], cases, 'B:gen')
         for c in cases:
@@ -463,8 +646,10 @@ def main(chk: Check) -> None:
         'outcomes are compared as value-vs-failure and by the full variable store (also at the point of failure), never by message text',
         'where the reference is silent the spec answers "unspecified" and any outcome is accepted: assignment or set_variable in '
         'expression position, int-vs-bool inside containers, textual form of containers in format()/f-strings, str methods on '
-        'non-ASCII text, Windows-style paths with "/", digit separators in to_int, splitlines, version_compare (covered by C19), '
-        'array.slice/flatten, dict.values, numbers beyond 30000 in products',
+        'non-ASCII text, Windows-style paths with "/", digit separators in to_int, version_compare (covered by C19), '
+        'array.slice with explicit bounds and a negative step, splitlines on text with line boundaries other than LF / CR / CR LF, '
+        'arrays passed to methods that take no arguments, numbers beyond 30000 in products',
+        'templates of the substitution model with fewer than two `@` (no placeholder possible) are replayed one in sixteen',
         'subdir() is modelled as in-place inclusion and subproject() as a separate store reachable through get_variable(); a directory entered twice and subdir() inside loops are not generated',
         'integers are kept below 2^31 (TLC integers)',
     ]
